@@ -248,11 +248,12 @@ def Call.run : Call → NetM Unit
       modify fun s => { s with w := s.w.inject n.rf.rid pipe data }
 
 /-- what the property assumes of the arguments: `node_address` is given an address of the tree
-    (the other values `is_address_valid` accepts are the three reserved multicast addresses);
-    `multicast_level` is assigned on a node that allows multicast — see the finding below -/
-def Call.Admissible (cfg : AddrCfg) : Call → Prop
+    (the other values `is_address_valid` accepts are the three reserved multicast addresses).
+    Nothing is assumed of a `multicast_level` assignment any more (multicast allowed or not, any
+    integer): the clause `allowMulticast = true` this definition had went away with the repair of
+    the setter, see `C07_multicast_level` below. -/
+def Call.Admissible : Call → Prop
   | .setNodeAddress ds => IsNode ds
-  | .setMulticastLevel _ => cfg.allowMulticast = true
   | _ => True
 
 theorem C07_faults_same (ds : DrvState) (l : List Outcome) (hw : ds.Wf) :
@@ -264,7 +265,7 @@ theorem C07_faults_same (ds : DrvState) (l : List Outcome) (hw : ds.Wf) :
     open or closed system (`Quiet`), every argument, every world: if the node listens before and the call returns, the
     node listens after; its configuration and identity are unchanged. -/
 theorem C07_api (c : Call) (s s' : NetState) (hopen : Quiet s) (h : NodeListens s)
-    (hc : CfgBytes s.node.cfg) (hadm : c.Admissible s.node.cfg) (hret : nexec c.run s = (.ok (), s')) :
+    (hc : CfgBytes s.node.cfg) (hadm : c.Admissible) (hret : nexec c.run s = (.ok (), s')) :
     NodeListens s' ∧ s'.node.cfg = s.node.cfg ∧ s'.closed = s.closed ∧ s'.cur = s.cur ∧ Quiet s' := by
   have hnl : NL s s := ⟨h, NFr0.refl s⟩
   have hg := C07_good_of hc
@@ -288,7 +289,7 @@ theorem C07_api (c : Call) (s s' : NetState) (hopen : Quiet s) (h : NodeListens 
   | multicast msg ty level =>
     simp only [Call.run, wp_bind, wp_pure]; exact (nl_apiMulticast hopen msg ty level hnl).post (fun _ _ h => h)
   | setNodeAddress ds => simp only [Call.run]; exact nl_apiSetNodeAddress hg hadm hnl
-  | setMulticastLevel lvl => simp only [Call.run]; exact (nl_apiSetMulticastLevel lvl hnl hadm).post (fun _ _ h => h.1)
+  | setMulticastLevel lvl => simp only [Call.run]; exact (nl_apiSetMulticastLevel lvl hnl).post (fun _ _ h => h.1)
   | setFragmentation en => simp only [Call.run]; exact nl_apiSetFragmentation en hnl
   | setMulticastRelay en =>
     simp only [Call.run]
@@ -335,19 +336,19 @@ inductive Runs : List Call → NetState → NetState → Prop
 /-- **Any sequence** of entry points, arrivals, fault patterns (induction over the history): the
     node listens after every one of them. -/
 theorem C07_history (cs : List Call) (s s' : NetState) (hopen : Quiet s) (h : NodeListens s)
-    (hc : CfgBytes s.node.cfg) (hadm : ∀ c ∈ cs, c.Admissible s.node.cfg) (hr : Runs cs s s') :
+    (hc : CfgBytes s.node.cfg) (hadm : ∀ c ∈ cs, c.Admissible) (hr : Runs cs s s') :
     NodeListens s' ∧ s'.node.cfg = s.node.cfg := by
   induction hr with
   | nil s => exact ⟨h, rfl⟩
   | cons c cs s s1 s2 h1 _ ih =>
     obtain ⟨a, b, _, _, q⟩ := C07_api c s s1 hopen h hc (hadm c (List.mem_cons_self ..)) h1
     obtain ⟨x, y⟩ := ih q a (by rw [b]; exact hc)
-      (fun c hc' => by rw [b]; exact hadm c (List.mem_cons_of_mem _ hc'))
+      (fun c hc' => hadm c (List.mem_cons_of_mem _ hc'))
     exact ⟨x, y.trans b⟩
 
 /-- … in terms of the specification, whenever the node is (still / again) at an address of the tree -/
 theorem C07_history_listening (cs : List Call) (s s' : NetState) (hopen : Quiet s)
-    (h : NodeListens s) (hc : CfgBytes s.node.cfg) (hadm : ∀ c ∈ cs, c.Admissible s.node.cfg)
+    (h : NodeListens s) (hc : CfgBytes s.node.cfg) (hadm : ∀ c ∈ cs, c.Admissible)
     (hr : Runs cs s s') (ds : List Nat) (hn : IsNode ds) (ha : s'.node.a.addr = val ds)
     (hl : s'.node.a.netLvl ≤ 4) : Listening s'.node (radioOf s') := by
   obtain ⟨h1, h2⟩ := C07_history cs s s' hopen h hc hadm hr
@@ -356,29 +357,91 @@ theorem C07_history_listening (cs : List Call) (s s' : NetState) (hopen : Quiet 
 /-- non-vacuity: a listening node, a history that is admissible and runs (the empty one, and one
     environment move) -/
 example : ∃ s s', NodeListens s ∧ s.closed = false ∧ CfgBytes s.node.cfg ∧
-    Runs [Call.envFaults [Outcome.ackLost]] s s' ∧ (∀ c ∈ [Call.envFaults [Outcome.ackLost]], c.Admissible s.node.cfg) := by
+    Runs [Call.envFaults [Outcome.ackLost]] s s' ∧ (∀ c ∈ [Call.envFaults [Outcome.ackLost]], c.Admissible) := by
   obtain ⟨s, h1, h2, h3, _⟩ := C07_demo_listens
   exact ⟨s, _, h1, h2, h3, Runs.cons _ _ s _ _ rfl (Runs.nil _), fun c hc => by simp at hc; subst hc; trivial⟩
 
-/-! ## FINDING (reported, not fixed): `multicast_level = lvl` with `allow_multicast = False`
+/-! ## `multicast_level = lvl` with `allow_multicast = False` (former finding, repaired)
 
-`multicast_level`'s setter re-opens pipe 0 on `_pipe_address(_lvl_2_addr(lvl), 0)` whatever
-`allow_multicast` is.  Without multicasting `_pipe_address(x, 0)` is the *own* pipe-0 address of
-node `x` — so the node stops listening on its own pipe-0 address and listens on that of the first
-node of level `lvl` instead (`Listening` fails on pipe 0).  Replayed on the real code:
+History.  Until fix 6a18625 `multicast_level`'s setter re-opened pipe 0 on
+`_pipe_address(_lvl_2_addr(lvl), 0)` whatever `allow_multicast` was.  Without multicasting
+`_pipe_address(x, 0)` is the *own* pipe-0 address of node `x` — so the node stopped listening on
+its own pipe-0 address and listened on that of the first node of level `lvl` instead (`Listening`
+failed on pipe 0).  Replayed on the unrepaired code:
 `net 1 0 new n network 0 9 ; n set allow_multicast F ; n set node_address 9 ; n set multicast_level 2`
-leaves RX_ADDR_P0 = c3c33ccccc, node 0o11's own is c33c3ccccc.  Hence the hypothesis
-`allowMulticast = true` in `Call.Admissible`.  Proposed fix (not applied: the C04 model of the
-setter in `NrfModel/Net/Addr.lean: multicastLevelAddr` / `NrfModel/Drv/Net.lean: hSetMcLvl` has to
-follow): open pipe 0 on `_pipe_address(_lvl_2_addr(lvl) if self.allow_multicast else self._addr, 0)`. -/
+left RX_ADDR_P0 = c3c33ccccc, node 0o11's own is c33c3ccccc (known finding
+`C07-mclvl-no-multicast`, now under "fixed"; the line is kept in `corpus/C07/`).  On that model
+this section held `C07_finding_multicast_level` (the two addresses differ: `C07_level_addr_differs`
+below keeps the arithmetic), `Call.Admissible` demanded `allowMulticast = true` of the setter, and
+`C07_api` / `C07_history*` inherited that hypothesis.  The repaired setter opens pipe 0 on
+`_pipe_address(_lvl_2_addr(lvl) if self.allow_multicast else self._addr, 0)`; the model
+(`NrfModel/Net/Api.lean: apiSetMulticastLevel`, `NrfModel/Net/Addr.lean: multicastLevelAddr`)
+follows, the hypothesis is gone and the finding turns into the theorem below. -/
 
-/-- the crux on the model: with multicasting off, `multicast_level = 1` on node `0o2` opens pipe 0
-    on `_pipe_address(1, 0)`, which is not node `0o2`'s pipe-0 address `_pipe_address(2, 0)` -/
-theorem C07_finding_multicast_level :
+/-- **`multicast_level = lvl` for every `lvl`, multicast allowed or not.**  From a state in which a
+    tree node listens: when the assignment returns, the node listens (invariant and
+    specification), the level attribute is the clamped argument (C04's `setMulticastLevel`), the
+    rest of the address attributes and the configuration are untouched — and on pipe 0 the chip
+    matches: the shared address of the *new* level if the node allows multicast; **the node's own
+    pipe-0 address otherwise** (the documented `physAddrSpec … 0`, which is the implementation's
+    `_pipe_address(self._addr, 0)` that `_begin` had opened there — it did not move). -/
+theorem C07_multicast_level (lvl : Int) (s s' : NetState) (h : NodeListens s)
+    (hc : CfgBytes s.node.cfg) (ds : List Nat) (hn : IsNode ds) (ha : s.node.a.addr = val ds)
+    (hret : nexec (apiSetMulticastLevel lvl) s = (.ok (), s')) :
+    NodeListens s' ∧ Listening s'.node (radioOf s') ∧ s'.node.cfg = s.node.cfg ∧
+    s'.node.a = { s.node.a with netLvl := setMulticastLevel lvl } ∧
+    (s.node.cfg.allowMulticast = true →
+      levelAddrSpec s.node.cfg.pfx s.node.cfg.sfx (setMulticastLevel lvl)
+        = some ((radioOf s').rxAddr 0)) ∧
+    (s.node.cfg.allowMulticast = false →
+      physAddrSpec s.node.cfg.pfx s.node.cfg.sfx ds 0 = some ((radioOf s').rxAddr 0) ∧
+      pipeAddress s.node.cfg (val ds) 0 = .ok ((radioOf s').rxAddr 0)) := by
+  have hw := nl_apiSetMulticastLevel lvl (s0 := s) ⟨h, NFr0.refl s⟩
+  obtain ⟨⟨h1, hfr⟩, h2⟩ := (wp_any_iff _ _ _).1 hw () s' hret
+  have hlv : (min 4 (max lvl 0)).toNat = setMulticastLevel lvl := by
+    unfold setMulticastLevel MULTICAST_LEVEL_MAX; omega
+  rw [hlv] at h2
+  have hcfg : s'.node.cfg = s.node.cfg := hfr.cfg
+  have hc' : CfgBytes s'.node.cfg := by rw [hcfg]; exact hc
+  have ha' : s'.node.a.addr = val ds := by rw [h2]; exact ha
+  have hl' : s'.node.a.netLvl ≤ 4 := by
+    rw [h2]; show setMulticastLevel lvl ≤ 4; unfold setMulticastLevel MULTICAST_LEVEL_MAX; omega
+  have hL := C07_companion s' h1 hc' ds hn ha' hl'
+  have hp0 := hL.2.2.2.2.2.1 0 (by simp)
+  unfold wantAddr at hp0
+  rw [hcfg, ha', digitsOf_val hn.1] at hp0
+  refine ⟨h1, hL, hcfg, h2, ?_, ?_⟩
+  · intro ham
+    rw [ham, h2] at hp0
+    simpa using hp0
+  · intro ham
+    rw [ham] at hp0
+    have hp : physAddrSpec s.node.cfg.pfx s.node.cfg.sfx ds 0 = some ((radioOf s').rxAddr 0) := by
+      simpa using hp0
+    refine ⟨hp, ?_⟩
+    obtain ⟨_, _, x, h3, _, _, h4⟩ := C04_level_setter_own s.node.cfg hc.1 ham ds hn lvl
+    cases h3.symm.trans hp
+    exact h4
+
+/-- non-vacuity: a session in which a tree node listens (the hypotheses of `C07_multicast_level`;
+    `C07_begin` produces one for either value of `allow_multicast` — it is universally quantified
+    over the configuration), and an admissible configuration with multicasting off -/
+example : (∃ s, NodeListens s ∧ CfgBytes s.node.cfg ∧ IsNode [3, 2, 1] ∧ s.node.a.addr = val [3, 2, 1]) ∧
+    CfgBytes { allowMulticast := false } := by
+  obtain ⟨s, h1, _, h3, h4, _⟩ := C07_demo_listens
+  exact ⟨⟨s, h1, h3, by decide, h4⟩, by unfold CfgBytes; decide⟩
+
+/-- the arithmetic of the former finding, kept: with multicasting off the address the unrepaired
+    setter programmed for `multicast_level = 1` on node `0o2` (`_pipe_address(_lvl_2_addr(1), 0)`)
+    is not node `0o2`'s pipe-0 address `_pipe_address(2, 0)` — whereas the repaired setter programs
+    exactly the latter -/
+theorem C07_level_addr_differs :
     lvl2addr 1 = val [1] ∧
-    pipeAddress { allowMulticast := false } (val [1]) 0 ≠ pipeAddress { allowMulticast := false } (val [2]) 0 := by
+    pipeAddress { allowMulticast := false } (val [1]) 0 ≠ pipeAddress { allowMulticast := false } (val [2]) 0 ∧
+    multicastLevelAddr { allowMulticast := false } (val [2]) 1
+      = pipeAddress { allowMulticast := false } (val [2]) 0 := by
   have hg : GoodCfg { allowMulticast := false } := C07_good_of (by unfold CfgBytes; decide)
-  refine ⟨by decide, ?_⟩
+  refine ⟨by decide, ?_, rfl⟩
   rw [pipeAddress_listen hg.hg (by decide) (by decide), pipeAddress_listen hg.hg (by decide) (by decide)]
   intro h
   have := Except.ok.inj h
